@@ -185,6 +185,7 @@ func openStore(cfg QConfig, clock *Clock, dbPath string) (queue.Store, func() er
 		return queue.NewMemoryStore(opts...), func() error { return nil }, nil
 	case "sqlite":
 		s, err := queue.NewSQLiteStore(dbPath,
+			queue.WithSQLitePollInterval(cfg.PollInterval),
 			queue.WithSQLiteNowFunc(clock.Now),
 			queue.WithSQLiteCheckpointInterval(0),
 			queue.WithSQLiteQueueLimits(cfg.MaxDepth, cfg.DropPolicy),
